@@ -1068,7 +1068,7 @@ func runC19(c *core.Ctx) {
 	}
 
 	pre := k.preamble()
-	total := c.N(100000, 3000000)
+	total := c.N(100000, 12000000)
 	for i := 0; i < total; i++ {
 		if !c.Mine(i) {
 			continue
